@@ -298,11 +298,11 @@ theorem dump_entries (rs : List Rec) (hrs : ∀ r ∈ rs, r.OK) :
         obtain ⟨h1, ht, hv⟩ := hok
         simp only [Rec.wire, Rec.tag, Rec.wt, Rec.body, Rec.chunk, List.append_assoc] at h
         have htag := Dec.tag_at h h1 ht (by decide)
-        have hAt := h.advance
+        have hAt := h.afterTag
         have hval := Dec.scalar_at hAt (encVarint_ne_nil v) elInt64 .int (toI64 v) (elInt64_any v hv _)
         have hAt2 := hAt.advance
         have := ih' _ _ hAt2
-        have hstep : Dec.step { d with off := d.off + (encTag t wtVarint).length } .int64 = ({ d with off := d.off + (encTag t wtVarint).length + (encVarint v).length }, .ok (.int (toI64 v)), 0) := by
+        have hstep : Dec.step (d.afterTag (encTag t wtVarint).length) .int64 = ({ d.afterTag (encTag t wtVarint).length with off := (d.afterTag (encTag t wtVarint).length).off + (encVarint v).length }, .ok (.int (toI64 v)), 0) := by
           show withAlloc (Dec.scalar _ elInt64 .int) 0 = _
           rw [hval]; rfl
         simp only [htag, if_true, hstep, this, Rec.entry]
@@ -311,11 +311,11 @@ theorem dump_entries (rs : List Rec) (hrs : ∀ r ∈ rs, r.OK) :
         obtain ⟨h1, ht, hv⟩ := hok
         simp only [Rec.wire, Rec.tag, Rec.wt, Rec.body, Rec.chunk, List.append_assoc] at h
         have htag := Dec.tag_at h h1 ht (by decide)
-        have hAt := h.advance
+        have hAt := h.afterTag
         have hval := Dec.scalar_at hAt (by simp [encFixed32, leBytes]) elFixed32 .nat v (elFixed32_enc v hv _)
         have hAt2 := hAt.advance
         have := ih' _ _ hAt2
-        have hstep : Dec.step { d with off := d.off + (encTag t wtFixed32).length } .fixed32 = ({ d with off := d.off + (encTag t wtFixed32).length + (encFixed32 v).length }, .ok (.nat v), 0) := by
+        have hstep : Dec.step (d.afterTag (encTag t wtFixed32).length) .fixed32 = ({ d.afterTag (encTag t wtFixed32).length with off := (d.afterTag (encTag t wtFixed32).length).off + (encFixed32 v).length }, .ok (.nat v), 0) := by
           show withAlloc (Dec.scalar _ elFixed32 .nat) 0 = _
           rw [hval]; rfl
         have n1 : ¬ (wtFixed32 = wtVarint) := by decide
@@ -325,11 +325,11 @@ theorem dump_entries (rs : List Rec) (hrs : ∀ r ∈ rs, r.OK) :
         obtain ⟨h1, ht, hv⟩ := hok
         simp only [Rec.wire, Rec.tag, Rec.wt, Rec.body, Rec.chunk, List.append_assoc] at h
         have htag := Dec.tag_at h h1 ht (by decide)
-        have hAt := h.advance
+        have hAt := h.afterTag
         have hval := Dec.scalar_at hAt (by simp [encFixed64, leBytes]) elFixed64 .nat v (elFixed64_enc v hv _)
         have hAt2 := hAt.advance
         have := ih' _ _ hAt2
-        have hstep : Dec.step { d with off := d.off + (encTag t wtFixed64).length } .fixed64 = ({ d with off := d.off + (encTag t wtFixed64).length + (encFixed64 v).length }, .ok (.nat v), 0) := by
+        have hstep : Dec.step (d.afterTag (encTag t wtFixed64).length) .fixed64 = ({ d.afterTag (encTag t wtFixed64).length with off := (d.afterTag (encTag t wtFixed64).length).off + (encFixed64 v).length }, .ok (.nat v), 0) := by
           show withAlloc (Dec.scalar _ elFixed64 .nat) 0 = _
           rw [hval]; rfl
         have n1 : ¬ (wtFixed64 = wtVarint) := by decide
@@ -340,16 +340,16 @@ theorem dump_entries (rs : List Rec) (hrs : ∀ r ∈ rs, r.OK) :
         obtain ⟨h1, ht, hb⟩ := hok
         simp only [Rec.wire, Rec.tag, Rec.wt, Rec.body, Rec.chunk, List.append_assoc] at h
         have htag := Dec.tag_at h h1 ht (by decide)
-        have hAt := h.advance
-        have hAt' : Dec.At { d with off := d.off + (encTag t wtLen).length } (pre ++ encTag t wtLen)
+        have hAt := h.afterTag
+        have hAt' : Dec.At (d.afterTag (encTag t wtLen).length) (pre ++ encTag t wtLen)
             (encVarint b.length ++ b ++ (rs.map Rec.wire).flatten) := by simpa using hAt
         have hval := Dec.bytes_at hAt' hb
-        have hAt2 : Dec.At { d with off := d.off + (encTag t wtLen).length + (encVarint b.length ++ b).length }
+        have hAt2 : Dec.At { d.afterTag (encTag t wtLen).length with off := (d.afterTag (encTag t wtLen).length).off + (encVarint b.length ++ b).length }
             (pre ++ encTag t wtLen ++ (encVarint b.length ++ b)) ((rs.map Rec.wire).flatten) := by
           have := hAt'.advance (x := encVarint b.length ++ b)
           simpa using this
         have := ih' _ _ hAt2
-        have hstep : Dec.step { d with off := d.off + (encTag t wtLen).length } .bytes = ({ d with off := d.off + (encTag t wtLen).length + (encVarint b.length ++ b).length }, .ok (.bytes b), 0) := by
+        have hstep : Dec.step (d.afterTag (encTag t wtLen).length) .bytes = ({ d.afterTag (encTag t wtLen).length with off := (d.afterTag (encTag t wtLen).length).off + (encVarint b.length ++ b).length }, .ok (.bytes b), 0) := by
           show withAlloc (Dec.bytesOp _) 0 = _
           rw [hval]; rfl
         have n1 : ¬ (wtLen = wtVarint) := by decide
